@@ -239,6 +239,7 @@ pub fn build(rng: &mut Rng, o: &ScenarioOpts) -> Scenario {
         change,
         variable_outputs,
         coin_outputs,
+        predicates: vec![],
     };
     let info = json!({"contracts": ids.len(), "gas_limit": gas_limit, "schedule": o.schedule, "gas_price": o.gas_price});
     Scenario { world, spec, env, info }
